@@ -395,12 +395,17 @@ func (proxy *PgProxy) handleClientPacket(ctx context.Context, packet *PacketHand
 			return false, err
 		}
 		queryPacket := newQueryPacket(query)
+		// If that's some sort of a packet with a query inside it,
+		// process inline data if necessary and remember the query to handle future response.
+		censored, err := proxy.handleQueryPacket(ctx, packet, logger)
+		if err != nil || censored {
+			// blocked query is not sent to the database and will not get any response: don't wait for it
+			return censored, err
+		}
 		if err = proxy.protocolState.pendingQueryPackets.Add(queryPacket); err != nil {
 			return false, err
 		}
-		// If that's some sort of a packet with a query inside it,
-		// process inline data if necessary and remember the query to handle future response.
-		return proxy.handleQueryPacket(ctx, packet, logger)
+		return false, nil
 
 	case BindStatementPacket:
 		// Bound query parameters may contain inline data that we need to process.
